@@ -591,3 +591,65 @@ def aggregates(fn, adt_suffix=None, variant=None):
                     continue
                 out.append((b["id"], i, s))
     return out
+
+
+def root_local(fn, o_or_place, max_hops=12):
+    """Follow reference / copy chains of single-definition temporaries to the local they denote."""
+    pl = o_or_place if "local" in o_or_place else op_place(o_or_place)
+    if pl is None:
+        return None
+    l = pl["local"]
+    for _ in range(max_hops):
+        ds = fn.defs.get(l, [])
+        if len(ds) != 1 or ds[0][0] != "stmt":
+            return l
+        s = ds[0][3]
+        if s["s"] != "assign" or s["dst"]["proj"]:
+            return l
+        rv = s["rv"]
+        if rv["r"] in ("ref", "rawptr"):
+            # a reference to a field is not the root itself
+            if any("field" in e for e in rv["place"]["proj"]):
+                return l
+            l = rv["place"]["local"]
+        elif rv["r"] == "use":
+            p2 = op_place(rv["op"])
+            if p2 is None or any("field" in e for e in p2["proj"]):
+                return l
+            l = p2["local"]
+        else:
+            return l
+    return l
+
+
+def const_defs(fn, local):
+    """[(bb, int value)] for every whole definition of `local` by an integer/bool constant;
+    None if some definition is not a constant"""
+    out = []
+    for d in fn.whole_defs(local):
+        if d[0] != "stmt":
+            return None
+        rv = d[3].get("rv")
+        if not rv or rv["r"] != "use" or "const" not in rv["op"] or rv["op"]["const"].get("int") is None:
+            return None
+        out.append((d[1], rv["op"]["const"]["int"]))
+    return out
+
+
+def variant_guard(fn, node, field=None, adt_suffix=None):
+    """variant name known at `node` for a match on a place whose last field is `field` /
+    whose ADT ends with adt_suffix: returns set of variant names that dominate the node"""
+    names = set()
+    for f in guards_of(fn, node):
+        if f.kind != "variant" or f.neg:
+            continue
+        a = f.atom
+        if field is not None:
+            if not (a.k == "proj" and a.b and a.b[-1].get("name") == field):
+                continue
+        t = fn.blocks[f.edge.src]["term"]
+        cond = resolver(fn).operand(t["discr"])
+        if adt_suffix is not None and not (cond.k == "discr" and cond.b and cond.b.endswith(adt_suffix)):
+            continue
+        names.add(f.val)
+    return names
